@@ -343,36 +343,16 @@ theorem keysDistinct_snoc (xs : List Arg) (a : Arg) (k : Key) (hd : KeysDistinct
   simp at this
   exact this.1
 
-/-- `addArgument` keeps the keys of each of the two containers (`mArguments`, `mSubGroupArgs`) pairwise different -/
-theorem addArgument_distinct (h : Handler) (a : Arg) (mods : List Mod)
-    (hp : KeysDistinct (plainArgs h.args)) (hs : KeysDistinct (subGroupArgs h.args)) :
-    KeysDistinct (plainArgs (h.addArgument a mods).1.args)
-    ∧ KeysDistinct (subGroupArgs (h.addArgument a mods).1.args) := by
+/-- `addArgument` (as repaired: the key is checked against both containers) keeps the keys of ALL arguments of
+    the handler - plain and sub-group arguments - pairwise different -/
+theorem addArgument_distinct (h : Handler) (a : Arg) (mods : List Mod) (hd : KeysDistinct h.args) :
+    KeysDistinct (h.addArgument a mods).1.args := by
   unfold Handler.addArgument
-  by_cases hacc : storageAccepts (sameContainer a h.args) a.key = true
+  by_cases hacc : storageAccepts h.args a.key = true
   · rw [if_neg (by simp [hacc])]
-    simp only
-    rw [plainArgs_append, subGroupArgs_append]
-    have hsg := applyMods_subGroup mods a
-    have hkey := applyMods_key mods a
-    unfold sameContainer at hacc
-    cases hg : a.subGroup with
-    | none =>
-      rw [hg] at hacc hsg
-      simp only [Option.isSome_none, Bool.false_eq_true, if_false] at hacc
-      have e1 : plainArgs [(applyMods a mods).1] = [(applyMods a mods).1] := by simp [plainArgs, hsg]
-      have e2 : subGroupArgs [(applyMods a mods).1] = [] := by simp [subGroupArgs, hsg]
-      rw [e1, e2, List.append_nil]
-      exact ⟨keysDistinct_snoc _ _ _ hp hkey hacc, hs⟩
-    | some k =>
-      rw [hg] at hacc hsg
-      simp only [Option.isSome_some, if_true] at hacc
-      have e1 : plainArgs [(applyMods a mods).1] = [] := by simp [plainArgs, hsg]
-      have e2 : subGroupArgs [(applyMods a mods).1] = [(applyMods a mods).1] := by simp [subGroupArgs, hsg]
-      rw [e1, e2, List.append_nil]
-      exact ⟨hp, keysDistinct_snoc _ _ _ hs hkey hacc⟩
+    exact keysDistinct_snoc _ _ _ hd (applyMods_key mods a) hacc
   · rw [if_pos (by simpa using hacc)]
-    exact ⟨hp, hs⟩
+    exact hd
 
 /-! ### `findArg2`: the plain arguments first, then the sub-group arguments -/
 
